@@ -688,6 +688,9 @@ class Translator:
             return ('ifcur', classes, a, b)
         if isinstance(s, ast.If) and self.const_of(sc, s.test) is not self.NOCONST:
             return self.block(sc, s.body if self.const_of(sc, s.test) else s.orelse)
+        if isinstance(s, ast.If) and self.truth_of(sc, s.test) is not None:
+            # the truth value is statically known although some operand is not (x or True): keep the operands' effects
+            return seq(self.expr(sc, s.test), self.block(sc, s.body if self.truth_of(sc, s.test) else s.orelse))
         if isinstance(s, ast.If):
             test = self.expr(sc, s.test)
             env0 = dict(sc.env)
@@ -759,6 +762,29 @@ class Translator:
                 if isinstance(op, ast.NotEq):
                     return a != b
         return self.NOCONST
+
+    def truth_of(self, sc, e):
+        """statically known truth value of a test: True / False / None (unknown)"""
+        c = self.const_of(sc, e)
+        if c is not self.NOCONST:
+            return bool(c)
+        if isinstance(e, ast.BoolOp):
+            ts = [self.truth_of(sc, v) for v in e.values]
+            if isinstance(e.op, ast.Or):
+                if any(t is True for t in ts):
+                    return True
+                if all(t is False for t in ts):
+                    return False
+            else:
+                if any(t is False for t in ts):
+                    return False
+                if all(t is True for t in ts):
+                    return True
+        if isinstance(e, ast.UnaryOp) and isinstance(e.op, ast.Not):
+            t = self.truth_of(sc, e.operand)
+            if t is not None:
+                return not t
+        return None
 
     def store_count(self, sc, name):
         if not hasattr(sc, '_stores'):
